@@ -148,9 +148,12 @@ def cases(tier, seed, rng):
     for mod, frac in ((C05, 0.3), (C06, 0.25), (C17, 0.15), (C01, 0.3), (C08, 0.12)):
         cs = mod.cases(sub if tier == 'quick' else 'thorough', seed + 1600, random.Random(seed * 104729 + hash(mod.ID) % 1000))
         k = max(3, int(len(cs) * frac)) if tier == 'quick' else max(3, int(len(cs) * 0.25))
-        for c in cs[:k]:
+        # evenly spread over the family's case list (which is grouped by generator), the last case included
+        step = max(1, len(cs) // k)
+        pick = cs[::step][:k] + ([cs[-1]] if cs else [])
+        for c in pick:
             c.origin = 'abuse:' + mod.ID + ':' + c.origin
-        out += cs[:k]
+        out += pick
     return out
 
 def relevant(f):
